@@ -273,6 +273,27 @@ def exp_log(j, rng, n):
                 j.fail("%s|Quaternion.exp|lattice;k=%d|wrong-value" % (PID, k), {"u": u, "k": k, "distance": d}, cid)
             else:
                 j.ok(cid)
+    # nearly real quaternions: exp(log(q)) = q with the vector part a small fraction of the scalar part (both signs)
+    for ratio in (1e-8, 1e-6, 1e-5, 3e-5, 1e-4, 1e-3, 1e-2):
+        for sgn in (1.0, -1.0):
+            for mag in (1e-3, 1.0, 5.0, 1e3):
+                ax = np.array([[1.0, 0, 0], [0, 0.6, -0.8], [2.0, -1.0, 2.0]][int(mag) % 3])
+                ax = ax / np.linalg.norm(ax)
+                cid = ("exp(log(q)) nearly-real", "ratio=%g" % ratio, sgn)
+                feat = "nearly-real;ratio=%g;s%s0" % (ratio, ">" if sgn > 0 else "<")
+                try:
+                    q = Quaternion(sgn * mag, ax * mag * ratio)
+                    got = np.asarray(q.log().exp().vec, dtype=float)
+                    d = float(np.max(np.abs(got - q.vec))) / mag
+                    if not np.all(np.isfinite(got)):
+                        d = float("inf")
+                except Exception as ex:  # noqa: BLE001
+                    j.fail("%s|Quaternion.log/exp|exp(log(q));%s|raised-%s" % (PID, feat, type(ex).__name__), {"ratio": ratio, "mag": mag}, cid)
+                    continue
+                if not (d <= 1e-6):
+                    j.fail("%s|Quaternion.log/exp|exp(log(q));%s|law-violated" % (PID, feat), {"ratio": ratio, "mag": mag, "distance": d}, cid)
+                else:
+                    j.ok(cid)
     for i in range(n):
         mag = 10 ** rng.uniform(-6, 6)
         v = np.array([rng.gauss(0, 1) for _ in range(3)])
